@@ -354,10 +354,13 @@ def check_guards(ctx, rid, prop):
         if not ok:
             # a test moved into a small helper: compare the flattened atom sets, looking through helpers that are not
             # themselves reviewed atoms (the per-switch structure is lost across the helper boundary)
+            def coarse(a):
+                return a.startswith(('call:', 'field:'))
+
             def flat(sets):
-                return sorted(sorted(set(a for term in x for a in term.split('&'))) for x in sets)
+                return sorted(sorted(set(a for term in x for a in term.split('&') if coarse(a))) for x in sets)
             keep = set(a for x in want for term in x for a in term.split('&'))
-            got2 = sorted(sorted(core.expand_atoms(F, set(a for term in x for a in term.split('&')), keep)) for x in got)
+            got2 = sorted(sorted(a for a in core.expand_atoms(F, set(a for term in x for a in term.split('&') if coarse(a)), keep) if coarse(a)) for x in got)
             if got2 == flat(want) and got2 != flat(got):
                 ok = True
         r.check(ok, 'guard|%s|%s' % (e['fn'].replace('proto::streams::', ''), e['action']), f.loc(sites[0]),
